@@ -29,7 +29,8 @@ def to_fortran_order(V):
     elif V.transpose(-2, -1).is_contiguous():
         return V
     else:
-        raise RuntimeError("Only the last two dimensions can be made Fortran order.")
+        # neither layout (e.g. batched output of a matrix-free operator): copy
+        return V.transpose(-2, -1).contiguous().transpose(-2, -1)
 
 def convert_none_grads_to_zeros(grads, inputs):
     is_tuple = isinstance(grads, tuple)
